@@ -130,6 +130,26 @@ def connSpecific (fs : List Field) : Bool :=
   regs.any (fun f => connHeadersLower.contains f.name) ||
     !teOK ((regs.filter (fun f => f.name == sTe)).map (·.value))
 
+def sContentLength : List Nat :=
+  [99, 111, 110, 116, 101, 110, 116, 45, 108, 101, 110, 103, 116, 104]   -- content-length
+
+def isDigits (v : List Nat) : Bool := !v.isEmpty && v.all (fun b => decide (48 ≤ b) && decide (b ≤ 57))
+
+/-- the values of the request's content-length fields, in order -/
+def clValues (fs : List Field) : List (List Nat) :=
+  ((regularFields fs).filter (fun f => f.name == sContentLength)).map (·.value)
+
+/-- RFC 9113 8.1.1 / RFC 9110 8.6: the content-length of a request is malformed when a value is not
+a number, when values differ, or when it is non-zero although the request ends with its HEADERS
+frame (no DATA can follow). `newWriterAndRequest` does NOT test any of this: it reads the first
+value only, only when the body is open, and maps an unparsable value to 0 (`classify` is unaffected;
+see Proofs/C15 `malformed_full_false`). -/
+def clBad (fs : List Field) (endStream : Bool) : Bool :=
+  let vs := clValues fs
+  vs.any (fun v => !isDigits v) ||
+    (match vs with | [] => false | v :: rest => rest.any (fun w => w != v)) ||
+    (endStream && vs.any (fun v => v.any (fun b => b != 48)))
+
 def classify (fs : List Field) : ReqClass :=
   if wireInvalid fs then .mw
   else if pseudoInvalid fs then .mp
